@@ -301,9 +301,26 @@ def _outpath_case(args):
     where = f"dclab.cli.task_{task}:{task}"
     tags = {"task": task, "kind": "outpath", "how": how}
     try:
-        ins, outs, _ = prepare_inputs(task, 0, d, scratch)
-        first = [p for p in ins if p.suffix == ".rtdc"][0]
+        ins, outs, gold_call = prepare_inputs(task, 0, d, scratch)
+        if task == "tdms2rtdc":
+            first = [p for p in sorted(ins) if p.suffix == ".tdms"
+                     and not p.name.endswith("_traces.tdms")][0]
+        else:
+            first = [p for p in ins if p.suffix == ".rtdc"][0]
+        # what the task produces for these inputs (plain output path)
+        gold = None
+        try:
+            gold_call()
+            gold = content_digest(outs[0])
+        except BaseException:
+            pass
+        for o in outs:
+            if o.exists():
+                o.unlink()
         given = {"other-suffix": d / "result.compressed",
+                 # the right suffix in another case
+                 "upper-suffix": d / "result.RTDC",
+                 "mixed-suffix": d / "result.Rtdc",
                  "no-suffix": d / "result",
                  "same-as-input": first,
                  "input-stem": first.with_suffix(""),
@@ -325,9 +342,11 @@ def _outpath_case(args):
         def call():
             if task == "join":
                 fn(paths_in=ins, path_out=given)
+            elif task == "tdms2rtdc":
+                fn(path_tdms=first, path_rtdc=given, compute_features=False)
             else:
                 fn(path_in=first, path_out=given)
-        if how == "tilde-suffix":
+        if how in ("tilde-suffix", "upper-suffix"):
             # with injected failures: whatever name the tool derives, the
             # *requested* path never holds an incomplete file
             K = faults.run_child(call)["count"]
@@ -369,15 +388,35 @@ def _outpath_case(args):
         # Where exactly the result goes for a path without the .rtdc
         # suffix is the tool's business; whatever .rtdc file exists
         # afterwards (apart from the inputs) must be complete.
-        produced = [x for x in d.rglob("*.rtdc") if x not in ins]
+        produced = [x for x in d.rglob("*") if x.is_file() and x not in ins
+                    and x.suffix.lower() == ".rtdc"]
+        digests = {}
         for x in produced:
             try:
-                content_digest(x)
+                digests[x] = content_digest(x)
             except BaseException as e:
                 out.append(violation(
                     where, "partial-output", case,
                     f"{x.name} (task: {status[:80]}) is not loadable: "
                     f"{type(e).__name__}: {e}", tags))
+        if status == "ok" and gold is not None:
+            # a task that reports success has produced the result somewhere
+            # (under a name of its choice), and the file at the requested
+            # path - if there is one - is that result, not a part of it
+            if gold not in digests.values():
+                out.append(violation(
+                    where, "success-without-result", case,
+                    f"{task} with output path '{given.name}' ({how}) "
+                    f"returned normally but none of "
+                    f"{sorted(x.name for x in produced)} holds what the "
+                    f"task produces for a plain output path", tags))
+            req = [x for x in digests if x.name == given.name]
+            if req and digests[req[0]] != gold:
+                out.append(violation(
+                    where, "wrong-output", case,
+                    f"{task}: the file at the requested path "
+                    f"'{given.name}' ({how}) differs from what the task "
+                    f"produces for a plain output path", tags))
     finally:
         shutil.rmtree(d, ignore_errors=True)
     return out
@@ -422,7 +461,11 @@ def run(ctx):
               for how in ("other-suffix", "no-suffix", "same-as-input",
                           "input-stem", "input-stem-other-suffix",
                           "same-via-dotdot", "same-relative",
-                          "stem-via-dotdot", "tilde-suffix")]
+                          "stem-via-dotdot", "tilde-suffix",
+                          "upper-suffix", "mixed-suffix")]
+    oitems += [("tdms2rtdc", how, scratch)
+               for how in ("other-suffix", "no-suffix", "tilde-suffix",
+                           "upper-suffix", "mixed-suffix")]
     for vs in par.pmap(_outpath_case, oitems):
         viols.extend(vs)
     statuses = {}
